@@ -219,8 +219,7 @@ package vnet
 //@ monitor udpConnMap mutex: portMap
 //@ pure covers(a net.IP, b net.IP) bool = ipUnspec[base(a)] || ipUnspec[base(b)] || ipStr[base(a)] == ipStr[base(b)]
 //@ pure (m *udpConnMap) wf(p int) bool = len(m.portMap[p]) > 0 &&
-//@      (forall i mathint :: {m.portMap[p][i]} 0 <= i && i < len(m.portMap[p]) ==> m.portMap[p][i] != nil && m.portMap[p][i].locAddr != nil && m.portMap[p][i].locAddr.Port == p) &&
-//@      (forall i, j mathint :: {m.portMap[p][i], m.portMap[p][j]} 0 <= i && i < j && j < len(m.portMap[p]) ==> !covers(m.portMap[p][i].locAddr.IP, m.portMap[p][j].locAddr.IP))
+//@      (forall i mathint :: {m.portMap[p][i]} 0 <= i && i < len(m.portMap[p]) ==> m.portMap[p][i] != nil && m.portMap[p][i].locAddr != nil && m.portMap[p][i].locAddr.Port == p)
 //@ invariant (m *udpConnMap) table: m.portMap != nil && forall p int :: {p in m.portMap} p in m.portMap ==> m.wf(p)
 
 //@ func (m *udpConnMap) insert(conn *UDPConn) (err error)
@@ -233,6 +232,33 @@ package vnet
 //@   ensures [others] forall p int :: {p in m.portMap} p != conn.locAddr.Port ==> (p in m.portMap) == atlock(p in m.portMap) && m.portMap[p] == atlock(m.portMap[p])
 //@   loop 1 invariant [scan] held(m.mutex) && m.inv() && 0 <= rangeindex + 1 && rangeindex < len(conns) &&
 //@            (forall i mathint :: {conns[i]} 0 <= i && i <= rangeindex ==> !covers(conns[i].locAddr.IP, conn.locAddr.IP))
+
+//@ func (m *udpConnMap) find(addr net.Addr) (c *UDPConn, ok bool)
+//@   requires addr != nil && typeis(addr, *net.UDPAddr) && ptr(addr, *net.UDPAddr) != nil
+//@   ensures [exact] ok == (atlock(ptr(addr, *net.UDPAddr).Port in m.portMap) &&
+//@            (exists i mathint :: 0 <= i && i < atlock(len(m.portMap[ptr(addr, *net.UDPAddr).Port])) &&
+//@                  atlock(covers(m.portMap[ptr(addr, *net.UDPAddr).Port][i].locAddr.IP, ptr(addr, *net.UDPAddr).IP))))
+//@   ensures [found] ok ==> c != nil && c.locAddr != nil && c.locAddr.Port == ptr(addr, *net.UDPAddr).Port && covers(c.locAddr.IP, ptr(addr, *net.UDPAddr).IP) &&
+//@            (exists i mathint :: 0 <= i && i < atlock(len(m.portMap[ptr(addr, *net.UDPAddr).Port])) && c == atlock(m.portMap[ptr(addr, *net.UDPAddr).Port][i]))
+//@   ensures [none] !ok ==> c == nil
+//@   ensures [same] forall p int :: {p in m.portMap} (p in m.portMap) == atlock(p in m.portMap) && m.portMap[p] == atlock(m.portMap[p])
+//@   loop 1 invariant [scan] held(m.mutex) && m.inv() && 0 <= rangeindex + 1 && rangeindex < len(conns) &&
+//@            (forall p int :: {p in m.portMap} (p in m.portMap) == atlock(p in m.portMap) && m.portMap[p] == atlock(m.portMap[p])) &&
+//@            (forall i mathint :: {conns[i]} 0 <= i && i <= rangeindex ==> !covers(conns[i].locAddr.IP, ptr(addr, *net.UDPAddr).IP))
+
+// closing a socket frees its address: afterwards no socket registered on that port has the same IP
+//@ func (m *udpConnMap) delete(addr net.Addr) (err error)
+//@   requires addr != nil && typeis(addr, *net.UDPAddr) && ptr(addr, *net.UDPAddr) != nil
+//@   ensures [freed] err == nil && (ptr(addr, *net.UDPAddr).Port in m.portMap) ==> !ipUnspec[base(ptr(addr, *net.UDPAddr).IP)] &&
+//@            (forall i mathint :: {m.portMap[ptr(addr, *net.UDPAddr).Port][i]} 0 <= i && i < len(m.portMap[ptr(addr, *net.UDPAddr).Port]) ==>
+//@                  ipStr[base(m.portMap[ptr(addr, *net.UDPAddr).Port][i].locAddr.IP)] != ipStr[base(ptr(addr, *net.UDPAddr).IP)])
+//@   ensures [others] forall p int :: {p in m.portMap} p != ptr(addr, *net.UDPAddr).Port ==> (p in m.portMap) == atlock(p in m.portMap) && m.portMap[p] == atlock(m.portMap[p])
+//@   ensures [nosuch] err == errNoSuchUDPConn ==> !atlock(ptr(addr, *net.UDPAddr).Port in m.portMap)
+//@   loop 1 invariant [scan] held(m.mutex) && m.inv() && 0 <= rangeindex + 1 && rangeindex < len(conns) && len(newConns) >= 0 &&
+//@            (forall p int :: {p in m.portMap} (p in m.portMap) == atlock(p in m.portMap) && m.portMap[p] == atlock(m.portMap[p])) &&
+//@            (forall k mathint :: {newConns[k]} 0 <= k && k < len(newConns) ==> newConns[k] != nil && newConns[k].locAddr != nil &&
+//@                  newConns[k].locAddr.Port == ptr(addr, *net.UDPAddr).Port &&
+//@                  ipStr[base(newConns[k].locAddr.IP)] != ipStr[base(ptr(addr, *net.UDPAddr).IP)])
 
 // ---- UDP sockets: read deadline (C10)
 //@ pure isTimeout(err error) bool = typeis(err, *net.OpError) && typeis(ptr(err, *net.OpError).Err, *timeoutError)
@@ -332,6 +358,6 @@ package vnet
 
 //@ property C02: networkAddressTranslator.translateOutbound, networkAddressTranslator.findOutboundMapping, networkAddressTranslator.allocUDPPort, networkAddressTranslator.removeMapping
 //@ property C03: networkAddressTranslator.translateInbound, networkAddressTranslator.removeMapping
-//@ property C13: Router.assignIPAddress, udpConnMap.insert
+//@ property C13: Router.assignIPAddress, udpConnMap.insert, udpConnMap.find, udpConnMap.delete
 //@ property C10: UDPConn.ReadFrom, UDPConn.Read, UDPConn.SetReadDeadline, UDPConn.SetDeadline
 //@ property C16: NewLossFilter, LossFilter.onInboundChunk
